@@ -51,6 +51,7 @@ STRENGTHENED = {
     'C49': 'missed at first (the lighthouse phases only covered frames arriving after the cancel); a family of stop points "stop while routines are already parked on the full query queue" was added (underlay made slow, parked state verified from the goroutine profile).',
     'C34-2': 'missed at first (relays were almost never used because every pair had a direct path); one pair of peers is now reachable only through the relay.',
     'C23-2': 'missed at first (no run ever reached the byte limit); byte-cap runs were added (a quiet flow whose run adds up to just below / at / above 65535 bytes, IPv4 and IPv6).',
+    'C46-3': 'missed at first (every generated machine had fully readable core topology, so the unknown-core sentinel never met a candidate CPU 0); a sixth of the direct cases and a quarter of the generated sysfs trees now hide the core topology of CPU 0 and/or other CPUs (missing directory, one id file only, unparsable id).',
     'C41-2': 'not caught, deliberately: the change only moves behaviour inside a cell the statement leaves open (an unsafe route that strictly covers an overlay network). The unchanged tree itself loads 0.0.0.0/0 or 8.0.0.0/5 over an overlay 10.0.0.0/24 and refuses 10.0.0.0/8 only because the written address happens to lie inside the network; the monitor generates, counts and does not judge that cell, and a check demanding either outcome would be stricter than the property.',
     'C49-2': 'missed at first (no node with a DNS responder or sshd was ever stopped); a real-socket services unit was added (lighthouse with serve_dns, sshd), with stop requests inside the responder bind window (reached by a blocking log sink and by free scheduling) and the clock-free witness "the stopped node still answers a query".',
     'C09-3': 'missed at first (the answering certificate that lists the dialled address first and the victim own address after it was reached too rarely); a third of the poison steps now construct exactly that dial.',
